@@ -27,13 +27,21 @@ Doc(k) == CASE W.k = "fixed" -> W.a
             [] W.k = "incr" -> Max(0, Min(W.a + W.b * (k - 1), W.c))
             [] OTHER -> 0
 
-St0 == [tfail |-> -1, bad |-> "ok"]
+\* per input event of the step (uid): time of its last failure and the number of its failures so far.  The k-th retry of
+\* an event is the start that follows its k-th failure -- counted here, not read from what the step is told
+\* (ctx.retry_info()), so that a retry whose count got lost on the way (e.g. while it waited in the queue of a
+\* saturated step) is still held to the delay of ITS retry number
+St0 == [tfail |-> <<>>, bad |-> "ok"]
+Has(s, u) == u \in DOMAIN s.tfail
 Apply(s, r) ==
-  CASE r.e = "step_end" /\ r.step = Tr.step /\ r.failed -> [s EXCEPT !.tfail = r.t]
-    [] r.e = "step_start" /\ r.step = Tr.step /\ r.retry >= 1 ->
-         LET gap == r.t - s.tfail IN
-         [s EXCEPT !.bad = IF gap >= Doc(r.retry) THEN @
-                           ELSE IF gap >= Doc(r.retry + 1) THEN "retry_started_early_by_next_index_delay"
+  CASE r.e = "step_end" /\ r.step = Tr.step /\ r.failed ->
+         [s EXCEPT !.tfail = [u \in DOMAIN @ \cup {r.uid} |->
+                                IF u = r.uid THEN [t |-> r.t, n |-> IF Has(s, u) THEN s.tfail[u].n + 1 ELSE 1] ELSE @[u]]]
+    [] r.e = "step_start" /\ r.step = Tr.step /\ Has(s, r.uid) ->
+         LET gap == r.t - s.tfail[r.uid].t
+             k == s.tfail[r.uid].n IN
+         [s EXCEPT !.bad = IF gap >= Doc(k) THEN @
+                           ELSE IF gap >= Doc(k + 1) THEN "retry_started_early_by_next_index_delay"
                            ELSE "retry_started_early"]
     [] OTHER -> s
 
